@@ -324,7 +324,7 @@ def check_C14(tier, seed, replay=None):
             return 0 if ok else 1
         total = 2400 if tier == "quick" else 90000
         outdir = os.path.join(b.scratch, "out")
-        lines, crashes = fanout(exes, seed, total, tier, outdir, 60 if tier == "quick" else 1300)
+        lines, crashes = fanout(exes, seed, total, tier, outdir, 60 if tier == "quick" else 1300, chunk=50)
         for c in crashes:
             rep.harness("alloc worker %d exited with %d: %s" % (c["worker"], c["rc"], c["tail"][-3:]))
         hashes, vl, probes, classes = [], [], {}, {}
@@ -438,10 +438,10 @@ def check_hist(prop, tier, seed, replay=None):
         if prop == "C10":
             total = nops * (96 if tier == "quick" else 2000)
         else:
-            total = nops * (64 if tier == "quick" else 1500)
+            total = nops * (80 if tier == "quick" else 1500)
         outdir = os.path.join(b.scratch, "out")
         budget = 100 if tier == "quick" else 1400
-        lines, crashes = fanout(exes, seed, total, tier, outdir, budget)
+        lines, crashes = fanout(exes, seed, total, tier, outdir, budget, chunk=nops)  # one chunk = one stratum (idx // nops)
         ill_lines = []
         if prop == "C11":
             outdir2 = os.path.join(b.scratch, "out_ill")
